@@ -204,6 +204,8 @@ pub struct Prog {
     /// an encrypted chunk with an empty payload was added (expected finding: decoder's `< 17` check)
     pub kf_empty: bool,
     pub builder_err: bool,
+    /// decode parse(serialise(file)) instead of the built value
+    pub via_bytes: bool,
 }
 
 impl Prog {
@@ -216,6 +218,7 @@ impl Prog {
             kf_index: false,
             kf_empty: false,
             builder_err: false,
+            via_bytes: false,
         }
     }
     fn nchunks(&self, len: usize) -> usize {
@@ -289,6 +292,31 @@ impl Prog {
         let mut store = TactKeyStore::empty();
         store.add(TactKey::new(s.name_a, s.key_a));
         store.add(TactKey::new(s.name_b, s.key_b));
+        let file = if self.via_bytes {
+            use cascette_formats::CascFormat;
+            let bytes = match CascFormat::build(&file) {
+                Ok(v) => v,
+                Err(e) => {
+                    std::mem::forget(e);
+                    assert!(false, "serialisation of the built container failed");
+                    return;
+                }
+            };
+            check_wire(&bytes, &file);
+            let parsed = match <BlteFile as CascFormat>::parse(&bytes) {
+                Ok(p) => p,
+                Err(e) => {
+                    std::mem::forget(e);
+                    assert!(false, "serialised container does not parse");
+                    return;
+                }
+            };
+            std::mem::forget(bytes);
+            std::mem::forget(file);
+            parsed
+        } else {
+            file
+        };
         let out = file.decompress_with_keys(&store);
         let (ok, same_len, same_byte) = match &out {
             Ok(v) => {
@@ -311,6 +339,40 @@ impl Prog {
         std::mem::forget(store);
         std::mem::forget(file);
     }
+}
+
+/// Wire layout of the serialised container against the built value (independent of the parser):
+/// "BLTE", big-endian header_size, [0x0F, 24-bit BE count, per chunk BE32 sizes + checksum], chunk bytes.
+pub fn check_wire(bytes: &[u8], file: &BlteFile) {
+    let n = file.chunks.len();
+    assert!(bytes.len() >= 8 && bytes[0] == b'B' && bytes[1] == b'L' && bytes[2] == b'T' && bytes[3] == b'E', "magic");
+    let hs = u32::from_be_bytes([bytes[4], bytes[5], bytes[6], bytes[7]]) as usize;
+    assert!(hs == file.header.header_size as usize, "header_size on the wire");
+    let mut off = 8;
+    if hs != 0 {
+        assert!(hs == 12 + 24 * n && bytes.len() >= hs, "header_size must cover the table");
+        assert!(bytes[8] == 0x0F && bytes[9] == 0 && bytes[10] == 0 && bytes[11] as usize == n, "flags + 24-bit big-endian chunk count");
+        let mut k = 0;
+        while k < n {
+            let e = 12 + 24 * k;
+            let cs = u32::from_be_bytes([bytes[e], bytes[e + 1], bytes[e + 2], bytes[e + 3]]) as usize;
+            assert!(cs == 1 + file.chunks[k].data.len(), "compressed_size on the wire");
+            k += 1;
+        }
+        off = hs;
+    }
+    let mut k = 0;
+    while k < n {
+        let c = &file.chunks[k];
+        assert!(bytes.len() >= off + 1 + c.data.len(), "chunk bytes missing");
+        assert!(bytes[off] == mode_letter(c.mode), "mode byte on the wire");
+        if c.data.len() > 0 {
+            assert!(bytes[off + 1] == c.data[0] && bytes[off + c.data.len()] == c.data[c.data.len() - 1], "chunk bytes on the wire");
+        }
+        off += 1 + c.data.len();
+        k += 1;
+    }
+    assert!(off == bytes.len(), "trailing or missing bytes after the last chunk");
 }
 
 fn mode_letter(m: CompressionMode) -> u8 {
@@ -381,6 +443,31 @@ pub fn check_table<const T: usize>(file: &BlteFile, s: &Sym<T>) {
 /// Salsa20 / ARC4 type bytes (concrete per harness: a symbolic type makes the builder's Result, and with it every Vec length, path-dependent)
 pub const S: u8 = 0x53;
 pub const A: u8 = 0x41;
+
+macro_rules! blte_prog_bytes {
+    ($name:ident, $cs:expr, $ta:ident $tb:ident, [$( $kind:ident $len:expr ),+]) => {
+        #[kani::proof]
+        #[kani::unwind(26)]
+        #[kani::stub(cascette_crypto::salsa20::Salsa20Cipher::generate_keystream, uf_generate_keystream)]
+        #[kani::stub(cascette_crypto::arc4::Arc4Cipher::new, uf_arc4_new)]
+        #[kani::stub(cascette_crypto::arc4::Arc4Cipher::next_keystream_byte, uf_arc4_next)]
+        #[kani::stub(cascette_crypto::md5::ContentKey::from_data, uf_content_key)]
+        #[kani::stub(cascette_crypto::keys::TactKeyStore::add, ks_add)]
+        #[kani::stub(cascette_crypto::keys::TactKeyStore::get, ks_get)]
+        #[kani::stub(std::hash::RandomState::new, fixed_random_state)]
+        #[kani::stub(std::fmt::format, fmt_format_empty)]
+        #[kani::stub(lz4_flex::block::decompress_safe::decompress, lz4_decompress_reached)]
+        #[kani::stub(flate2::read::ZlibDecoder::new, zlib_new_reached)]
+        fn $name() {
+            const T: usize = 0 $(+ $len)+;
+            let s: Sym<T> = Sym::any($ta, $tb);
+            let mut p = Prog::new($cs);
+            p.via_bytes = true;
+            $( p.step(&s, K::$kind, $len); )+
+            p.finish(&s);
+        }
+    };
+}
 
 macro_rules! blte_prog {
     ($name:ident, $cs:expr, $ta:ident $tb:ident, [$( $kind:ident $len:expr ),+]) => {
@@ -708,4 +795,17 @@ blte_harness!(c01_unknown_cipher_type_rejected, {
     std::mem::forget(r1);
     std::mem::forget(r2);
 });
+// @end
+
+// Only single-chunk (table-less) containers are registered: with a chunk table the parser does not finish
+// (measured: [Dn 3] cs 1 = 3 plain chunks and [De 2] cs 1 = 2 encrypted chunks both killed at 900 s in symex:
+// binrw-derived ExtendedHeader / Vec<ChunkInfo> reader).  Multi-chunk and encrypted containers are therefore
+// decoded from the built value (families above) and their table is checked on the value.
+// @family prop=C01 tier=quick timeout=900 role=serialise-parse-decode
+// @bounds builder programs as in the builder-program families (same naming), decoded from parse(serialise(built file)) instead of the built value; the serialised bytes are also compared with the wire layout (magic, big-endian header_size, flags, 24-bit count, per-chunk big-endian sizes, mode byte + chunk bytes, total length)
+// @encodes cascette_formats::blte::BlteFile::build, cascette_formats::blte::BlteFile::parse, cascette_formats::blte::BlteFile::read_options, cascette_formats::blte::BlteFile::write_options, cascette_formats::blte::BlteHeader::read_options, cascette_formats::blte::BlteHeader::write_options, cascette_formats::blte::ChunkData::read_options, cascette_formats::blte::ChunkData::write_options, cascette_formats::blte::ChunkInfo::read_options, cascette_formats::blte::ChunkInfo::write_options, cascette_formats::blte::BlteFile::decompress_with_keys, cascette_formats::blte::BlteBuilder::build
+// @assumes same models as the builder-program families
+// @catches chunk written without its mode byte, table sizes written little-endian or swapped, header_size not matching the table, single-chunk remainder read short / long, chunk boundaries taken from the wrong table field
+blte_prog_bytes!(c01_bytes_dn1_cs1, 1, S S, [Dn 1]);
+blte_prog_bytes!(c01_bytes_dn3_cs3, 3, S S, [Dn 3]);
 // @end
